@@ -254,6 +254,8 @@ class Gen:
         k = rng.choice(kinds)
         if k in ("SEQUENCE OF", "SET OF"):
             t = Type(k, elem=self.member_type(depth))
+            if t.elem.kind in ("SEQUENCE OF", "SET OF") and t.elem.size_c is not None and not p.get("nested_of_size"):
+                t.elem.size_c = None    # KF-C10: "X OF SET (SIZE(..)) OF Y" trips an assertion in the parser
             if p["constraints"] and rng.random() < 0.4:
                 t.size_c = self.size_constraint(maxlen=6)
                 # keep element counts small: clamp bounds used in values later
@@ -329,7 +331,11 @@ class Gen:
             else:
                 c.optional = True
         elif rt.kind == "ENUMERATED":
-            c.has_default, c.default = True, rng.choice(rt.items)[1]
+            items = [it for it in rt.items if it[1] >= 0 or self.p["neg_defaults"]]
+            if items:
+                c.has_default, c.default = True, rng.choice(items)[1]
+            else:
+                c.optional = True
         else:
             c.optional = True
 
